@@ -298,7 +298,7 @@ class Index(object):
         self.t = None
         self.open(default_rule, rules)
 
-    def open(self, default_rule, rules):
+    def open(self, default_rule, rules, overwrite=False):
         """rules: list of (anchor bytes, rule dict) in dict order."""
         self.default_rule = default_rule
         d = {}
@@ -307,7 +307,7 @@ class Index(object):
         with warnings.catch_warnings():
             warnings.simplefilter("ignore")
             self.t = tt.Traph(folder=self.folder, default_webentity_creation_rule=rule_regex(default_rule),
-                              webentity_creation_rules=d)
+                              webentity_creation_rules=d, overwrite=overwrite)
 
     def close(self):
         if self.t is not None:
@@ -373,11 +373,28 @@ def observe(ix):
     return obs
 
 
+def _as_text(x):
+    """The same LRU as str when it is plain ASCII (every public method encodes text arguments)."""
+    if isinstance(x, (bytes, bytearray)):
+        try:
+            return bytes(x).decode("ascii")
+        except UnicodeDecodeError:
+            return x
+    if isinstance(x, tuple):
+        return tuple(_as_text(v) for v in x)
+    if isinstance(x, list):
+        return [_as_text(v) for v in x]
+    return x
+
+
 def apply_op(ix, op):
     """Execute one request.  op is a dict with 'op' and concrete (bytes) arguments.
     Returns dict(exc=..., pages=..., created=..., ret=...)."""
     t = ix.t
     name = op["op"]
+    if op.get("text"):      # drive the API with str arguments; the log keeps the bytes
+        op = {k: (_as_text(v) if k in ("l", "ls", "pairs", "data", "ps", "p", "anchor") else v)
+              for k, v in op.items()}
     res = {"exc": "", "pages": 0, "created": [], "ret": None}
     try:
         with warnings.catch_warnings(), time_limit():
@@ -419,6 +436,10 @@ def apply_op(ix, op):
             elif name == "Reopen":
                 ix.close()
                 ix.open(op["def"], op["rules"])
+            elif name == "Recreate":
+                # a new index object on the same folder with overwrite=True (memory: a new object)
+                ix.close()
+                ix.open(op["def"], op["rules"], overwrite=True)
             elif name == "Clear":
                 d = {}
                 for anchor, rule in op["rules"]:
